@@ -24,6 +24,8 @@ import SigModel.Model.Alert
 import SigModel.Lemmas.C20
 import SigModel.Model.AlertJob
 import SigModel.Lemmas.C20J
+import SigModel.Model.AlertSet
+import SigModel.Lemmas.C20S
 import SigModel.Model.KV
 import SigModel.Lemmas.C20Kb
 import SigModel.Lemmas.C20Kc
@@ -383,6 +385,143 @@ example : -- non-vacuous: silence requested AFTER the job was created is honoure
       [(.firing, false), (.normal, false)] := by decide
 
 end SigModel.Props.C20.Job
+
+
+/-!
+# C20, the SET of alerts and their cron jobs (model: SigModel/Model/AlertSet.lean; op lines `ajs` of suite "alertjob")
+
+Mirrors the create / update / delete handlers and `InitAlertingService` WITH patches c20-10 (EvalInterval = 0 is
+refused before anything is written), c20-11 (`InitAlertingService` skips an alert it cannot schedule instead of
+returning) and c20-12 (an unknown alert type is refused before anything is written).  For EVERY operation sequence:
+  S1. a refused request changes nothing: neither the stored alerts nor the jobs (in particular a refused create
+      stores nothing);
+  S2. after a restart — at any position, whatever rows the database holds, also rows no request can produce any more
+      — every stored alert that can be scheduled has exactly one job and nothing else has one: one unschedulable row
+      cannot take the job of another alert away;
+  S3. alerts stored through the requests alone can always be scheduled, so after a restart EVERY stored alert has
+      exactly one job.
+The behaviour before the patches (`stepOld`) is refuted for S1 and S2 by counterexample theorems.
+-/
+namespace SigModel.Props.C20.JobSet
+open SigModel.AlertSet
+
+/-- no row is rewritten behind the API -/
+def RequestsOnly (ops : List Op) : Prop := ∀ op ∈ ops, Lemmas.C20S.isLegacy op = false
+
+instance (ops : List Op) : Decidable (RequestsOnly ops) := by unfold RequestsOnly; infer_instance
+
+/-- C20.S1 a refused request changes nothing — in ANY state: the stored alerts and the jobs are the same after it
+(a refused create stores nothing, a refused update keeps definition and job, a refused delete deletes nothing) -/
+theorem refused_request_changes_nothing (s : St) (op : Op) (h : (step s op).2 = .refused) :
+    (step s op).1.rows = s.rows ∧ (step s op).1.jobs = s.jobs := by
+  cases op with
+  | create w i =>
+    by_cases ha : accepted w i 1 = true
+    · simp [step, createRow, ha] at h
+    · simp [step, createRow, ha]
+  | createTyped t =>
+    by_cases ha : accepted 1 1 t = true
+    · simp [step, createRow, ha] at h
+    · simp [step, createRow, ha]
+  | edit k w i =>
+    by_cases hc : (hasRow s k && accepted w i 1) = true
+    · simp [step, hc] at h
+    · simp [step, hc]
+  | delete k =>
+    by_cases hc : hasRow s k = true
+    · simp [step, hc] at h
+    · simp [step, hc]
+  | legacyInterval k => simp [step] at h
+  | legacyType k => simp [step] at h
+  | restart => simp [step] at h
+
+/-- C20.S1' … spelled out for create: the request is refused exactly when the interval is 0, the window is
+shorter than the interval or the type is neither Logs nor Metrics — and then nothing is stored -/
+theorem refused_create_stores_nothing (s : St) (window interval : Nat) :
+    ((step s (.create window interval)).2 = .refused ↔ (interval = 0 ∨ window < interval)) ∧
+    ((step s (.create window interval)).2 = .refused →
+      (step s (.create window interval)).1.rows = s.rows ∧ (step s (.create window interval)).1.jobs = s.jobs) := by
+  refine ⟨?_, refused_request_changes_nothing s (.create window interval)⟩
+  by_cases ha : accepted window interval 1 = true
+  · have ha' := ha
+    simp only [accepted, Bool.and_eq_true, bne_iff_ne, ne_eq, Bool.not_eq_true', decide_eq_false_iff_not] at ha'
+    simp only [step, createRow, ha, if_true]
+    constructor
+    · intro h; cases h
+    · rintro (h | h)
+      · exact absurd h ha'.1.1
+      · exact absurd h ha'.1.2
+  · simp only [step, createRow, ha]
+    have : ¬ (interval ≠ 0 ∧ ¬ window < interval) := by
+      intro hc; apply ha; simp [accepted, hc.1, hc.2]
+    constructor
+    · intro _
+      by_cases h0 : interval = 0
+      · exact Or.inl h0
+      · right; exact Classical.byContradiction fun hn => this ⟨h0, hn⟩
+    · intro _; rfl
+
+/-- C20.S2 a restart re-arms every alert: after ANY operation sequence (requests, restarts, rows rewritten behind
+the API) a restart leaves exactly one job for every stored alert that can be scheduled and no other job — an
+alert that cannot be scheduled costs no other alert its job -/
+theorem restart_rearms_every_alert (ops : List Op) :
+    let s := (run init ops).1
+    (step s .restart).1.jobs.Nodup ∧
+    ∀ k, k ∈ (step s .restart).1.jobs ↔ ∃ r ∈ s.rows, r.idx = k ∧ schedulable r = true := by
+  intro s
+  exact ⟨Lemmas.C20S.restart_jobs_nodup s (Lemmas.C20S.inv_run ops init Lemmas.C20S.inv_init),
+    Lemmas.C20S.mem_restart_jobs s⟩
+
+/-- C20.S3 after any sequence of REQUESTS and restarts every stored alert can be scheduled; hence after a restart
+every stored alert has exactly one job -/
+theorem restart_rearms_every_stored_alert (ops : List Op) (hr : RequestsOnly ops) :
+    let s := (run init ops).1
+    (∀ r ∈ s.rows, schedulable r = true) ∧
+    (step s .restart).1.jobs.Nodup ∧
+    ∀ k, k ∈ (step s .restart).1.jobs ↔ ∃ r ∈ s.rows, r.idx = k := by
+  intro s
+  have hall : ∀ r ∈ s.rows, schedulable r = true :=
+    Lemmas.C20S.allSched_run ops init hr (by intro r h; cases h)
+  refine ⟨hall, (restart_rearms_every_alert ops).1, ?_⟩
+  intro k
+  rw [(restart_rearms_every_alert ops).2 k]
+  constructor
+  · rintro ⟨r, hr, hk, _⟩; exact ⟨r, hr, hk⟩
+  · rintro ⟨r, hr, hk⟩; exact ⟨r, hr, hk, hall r hr⟩
+
+example : -- non-vacuous: refused creates (interval 0, window < interval, type 0) store nothing; a row rewritten to
+          -- interval 0 loses its own job at the restart, the alerts stored after it keep theirs
+    (run init [.create 1 1, .create 0 0, .create 1 2, .createTyped 0, .create 4 2, .restart]).1 =
+      { next := 6, rows := [⟨1, 1, 1, 1⟩, ⟨5, 4, 2, 1⟩], jobs := [1, 5] } ∧
+    (run init [.create 1 1, .create 2 1, .create 3 1, .legacyInterval 2, .restart]).1.jobs = [1, 3] ∧
+    (run init [.create 1 1, .create 2 1, .create 3 1, .legacyType 1, .restart, .edit 1 5 5, .edit 2 0 0, .delete 3,
+        .delete 3]) =
+      ({ next := 4, rows := [⟨1, 5, 5, 1⟩, ⟨2, 2, 1, 1⟩], jobs := [2, 1] }, [.ok, .ok, .ok, .none, .none, .ok, .refused, .ok, .refused]) ∧
+    RequestsOnly [.create 1 1, .create 0 0, .create 1 2, .createTyped 0, .create 4 2, .restart] := by decide
+
+/-- OLD behaviour (before patches c20-10 / c20-12) REFUTED for S1: a create request with window 0 and interval 0
+— or with an unknown alert type — was answered with an error and the alert was stored nevertheless -/
+theorem refused_create_stores_nothing_old_counterexample :
+    ¬ (∀ (s : St) (op : Op), (stepOld s op).2 = .refused → (stepOld s op).1.rows = s.rows) := by
+  intro h
+  have h1 := h init (.create 0 0) (by decide)
+  revert h1
+  decide
+
+theorem refused_create_unknown_type_old_counterexample :
+    (stepOld init (.createTyped 0)).2 = .refused ∧ (stepOld init (.createTyped 0)).1.rows ≠ init.rows := by decide
+
+/-- OLD behaviour (before patch c20-11) REFUTED for S2: `InitAlertingService` returned at the first alert it could
+not schedule — after create, refused create (0/0, stored), create, a restart left the third alert without a job -/
+theorem restart_rearms_every_alert_old_counterexample :
+    ¬ (∀ ops : List Op, let s := (runOld init ops).1
+        ∀ k, (∃ r ∈ s.rows, r.idx = k ∧ schedulable r = true) → k ∈ (stepOld s .restart).1.jobs) := by
+  intro h
+  have h1 := h [.create 1 1, .create 0 0, .create 1 1] 3 (by decide)
+  revert h1
+  decide
+
+end SigModel.Props.C20.JobSet
 
 
 /-!
